@@ -12,7 +12,7 @@ LEVEL = "exploration"
 RULE = ("Hypothesis-generated pulls: content size {0,1,boundaries around 64 KiB, multi-MiB} U ints; DATA record size sequences (all-max, all-1, "
         "random, cyclic); WRTE boundaries over the sync byte stream (one packet per record; fixed tiny sizes 1..7 that cut every 8-byte header; "
         "record length +/- delta so that the cut drifts through every header offset; random); read-fragmentation tape; destination path/BytesIO; "
-        "callback none/recording/raising; both APIs. Oracle: destination bytes == simulator file content; RECV request, one OKAY per device WRTE, "
+        "callback none/recording/raising Exception/raising a BaseException subclass/re-entering the device with stat(); both APIs. Oracle: destination bytes == simulator file content; RECV request, one OKAY per device WRTE, "
         "exactly one host CLSE; callback counts sum to size. Non-trivial: a sync header split across WRTEs or >= 2 DATA records. Distinct = case hash.")
 ASSUMPTIONS = ["device simulator sync service per AOSP SYNC.TXT", "in-memory transport, virtual clock"]
 
@@ -51,7 +51,7 @@ def cases(draw):
         "dev_tape": draw(sc.dev_tape(10)),
         "transport": {"flavour": draw(sc.flavour()), "frag": frag},
         "connect": {},
-        "ops": [{"op": "pull", "path": path, "dest": draw(st.sampled_from(["bytesio", "file"])), "cb": draw(st.sampled_from([None, None, "rec", "raise"]))}],
+        "ops": [{"op": "pull", "path": path, "dest": draw(st.sampled_from(["bytesio", "file"])), "cb": draw(st.sampled_from([None, None, "rec", "raise", "raise-base", "reenter"]))}],
         "_arm": arm,
     }
 
@@ -93,6 +93,9 @@ def check_case(case):
         return Violation("pull-wrong-bytes", "expected %d bytes, destination has %s bytes; first difference at %s"
                          % (len(content), None if got is None else len(got), None if got is None else _first_diff(content, got))), info
     streams = out.op_streams[-1]
+    for r_ in out.extra.get("reenter_results", []):
+        if tuple(r_) != (0, 0, 0):
+            return Violation("reentrant-stat-wrong", "stat() issued from inside the progress callback returned %r" % (r_,)), info
     main = streams[0]         # pull opens its own stream first; a stat stream (callback) comes second
     reqs = [r for r in out.sim.sync_requests if r[0] == main.rid]
     if reqs != [(main.rid, "RECV", path)]:
